@@ -1913,4 +1913,25 @@ impl<S: IndexedFull> Repository<S> {
 #[allow(missing_docs, unused_imports, dead_code, clippy::all, clippy::pedantic, clippy::nursery)]
 pub mod verif_hooks {
     use super::*;
+
+    /// `Repository::dbe` (the decrypting backend of an opened repository)
+    pub fn dbe<S: Open>(repo: &Repository<S>) -> &DecryptBackend<Key> {
+        repo.dbe()
+    }
+    /// `repo.index().get_id(..)`
+    pub fn index_get_id<S: IndexedTree>(
+        repo: &Repository<S>,
+        tpe: BlobType,
+        id: &BlobId,
+    ) -> Option<IndexEntry> {
+        repo.index().get_id(tpe, id)
+    }
+    /// `repo.index().has(..)`
+    pub fn index_has<S: IndexedTree>(repo: &Repository<S>, tpe: BlobType, id: &BlobId) -> bool {
+        repo.index().has(tpe, id)
+    }
+    /// `repo.index().total_size(..)`
+    pub fn index_total_size<S: IndexedTree>(repo: &Repository<S>, tpe: BlobType) -> u64 {
+        repo.index().total_size(tpe)
+    }
 }
